@@ -83,6 +83,10 @@ OUT_PRE = [
     ("nary_plus", ["and", [">=", ["+", ["f", "?x"], ["g"], "5"], "0"]]),
     ("nary_times", ["and", [">=", ["*", ["f", "?x"], ["g"], ["f", "?y"]], "0"]]),
     ("unary_minus", ["and", [">=", ["-", ["f", "?x"]], "0"]]),
+    # - and / are binary in PDDL; a reader that takes more operands must not invent a meaning silently (left-to-right is the only
+    # defensible one)
+    ("nary_minus", ["and", [">=", ["-", ["f", "?x"], ["g"], "2"], "0"]]),
+    ("nary_divide", ["and", [">=", ["/", ["f", "?x"], ["g"], "2"], "1"]]),
     ("undeclared_predicate", ["and", ["p", "?x"], ["zz", "?x"]]),
     ("undeclared_predicate_first", ["and", ["zz", "?x"], ["p", "?x"]]),
     ("undeclared_function", ["and", [">", ["ff", "?x"], "0"]]),
@@ -116,6 +120,7 @@ OUT_EFF = [
     ("repeated_constant_effect", ["and", ["q", "k", "k"]]),
     ("repeated_constant_delete_in_when", ["and", ["when", ["q", "k", "k"], ["not", ["q", "k", "k"]]]]),
     ("nary_plus_effect", ["and", ["increase", ["f", "?x"], ["+", ["g"], "1", "2"]]]),
+    ("nary_minus_effect", ["and", ["assign", ["f", "?x"], ["-", "10", ["g"], "2"]]]),
     ("forall_without_when", ["and", ["forall", ["?z", "-", "t1"], ["not", ["p", "?z"]]]]),
     ("forall_and_body", ["and", ["forall", ["?z", "-", "t1"], ["and", ["not", ["p", "?z"]], ["r"]]]]),
     ("when_with_or_condition", ["and", ["when", ["or", ["p", "?x"], ["p", "?y"]], ["r"]]]),
